@@ -31,7 +31,7 @@ import time
 import typing
 from concurrent.futures import ProcessPoolExecutor
 
-from .. import e2e, realcall
+from .. import e2e
 from ..common import hx, unhx
 from ..runner import Check
 from . import c05, c05_groups
@@ -463,6 +463,11 @@ def evaluate_group(ck: Check, camps: dict, g: dict, res: dict, models: list, ord
         extra = {"inherit_group": g, "index": k, "document": res["document"], "declared_in": r.get("where")}
         out += c05.evaluate(ck, camps, v, r, mod, record=record, extra_inp=extra)
     # ---- TypedDict: the class tree against Model/TypedDict
+    if kind == "td" and isinstance(res.get("td"), dict) and "error" in res["td"]:
+        # the internals the snapshot reads (fields, base_classes, is_functional_syntax, all_fields, key) changed shape
+        tcamp.evaluations += 1
+        ck.disagree(tcamp, {"real_call": "TypedDict.fields / base_classes / is_functional_syntax / all_fields / DataModelField.key", "case": inp_g},
+                    "the TypedDict models can be read with the attributes the model was transliterated from", res["td"]["error"])
     if kind == "td" and td_reply is not None and isinstance(res.get("td"), dict) and "S" in res["td"]:
         tcamp.evaluations += 1
         dec = td_decode(td_reply)
